@@ -120,9 +120,6 @@ theorem escapeAt_none (prev : Option Char) (c : Char) (rest : Str) (h : c ≠ '\
   · rename_i heq; simp at heq; exact absurd heq.1 h
   · rfl
 
-theorem mem_of_getElem?' {α} (l : List α) (n : Nat) (a : α) (h : l[n]? = some a) : a ∈ l :=
-  List.mem_of_getElem? h
-
 theorem lineBreakAt_none (prev : Option Char) (r : Str) (hn : '\n' ∉ r) : lineBreakAt prev r = none := by
   unfold lineBreakAt
   have h1 : (r[countLeading ' ' r]? == some '\n') = false := by
@@ -1577,7 +1574,8 @@ theorem inertText_of_plain (s : Str) (h : ∀ c ∈ s, plainInline c = true) : i
     | true =>
       have := (hp '\n' (by simpa using hh)).2.2.2.2.2.2.2.2
       exact absurd rfl this
-  simp [inertText, inertBody, hall, hnl, ltOk_plain s (fun c hc => (hp c hc).2.2.1),
+  have hnl' : '\n' ∉ s := fun hm => (hp '\n' hm).2.2.2.2.2.2.2.2 rfl
+  simp [inertText, inertBody, hall, hnl', ltOk_plain s (fun c hc => (hp c hc).2.2.1),
     ampOk_plain s (fun c hc => (hp c hc).2.2.2.1), tildeOk_plain s (fun c hc => (hp c hc).2.2.2.2.1),
     bracketsOk_plain s (fun c hc => (hp c hc).2.2.2.2.2.1),
     emphOk_plain s ' ' (fun c hc => ⟨(hp c hc).2.2.2.2.2.2.1, (hp c hc).2.2.2.2.2.2.2.1⟩)]
@@ -1607,14 +1605,20 @@ theorem wikiFindAux_nil : ∀ (fuel pos : Nat) (s : Str), wikiOk s = true → wi
       unfold wikiAt
       have : startsWith ['[', '['] (c :: rest) = false := by
         cases rest with
-        | nil => simp [startsWith]
+        | nil => simp [startsWith, List.isPrefixOf]
         | cons d r =>
           have h1 := h.1
           simp only [List.head?_cons, Bool.and_eq_false_imp, beq_iff_eq] at h1
           simp only [startsWith, List.isPrefixOf_cons_cons, List.isPrefixOf_nil_left, Bool.and_true,
             Bool.and_eq_false_imp, beq_iff_eq]
           intro e; subst e
-          simpa using h1 rfl
+          have := h1 rfl
+          cases hh : ('[' == d) with
+          | false => rfl
+          | true =>
+            have e2 : d = '[' := (beq_iff_eq.mp hh).symm
+            subst e2
+            simp at this
       simp [this]
     simp only [wikiFindAux, hw]
     exact wikiFindAux_nil fuel (pos + 1) rest h.2
